@@ -18,7 +18,8 @@ RULE = (
     "identifiers and strings, tab-indented blocks, multi-line strings and brackets, backslash continuations, "
     "markup-like string literals, multi-line strings with exotic separators (form feed, U+2028, NEL) and multi-line f-strings; raise at the first / middle / last line; with and without trailing newline; CRLF), "
     "from exec'd / source-less code, with the C04 message set and generated messages, cause chains, recursion depth "
-    "1..60 x verbosity x UTF-8 on/off x ignore pattern matching or not x simple on/off; the highlighter alone over "
+    "1..60 x verbosity x UTF-8 on/off x ignore pattern matching or not x simple on/off; ignore-sequence: all sequences of 2-3 "
+    "renders in one process of exceptions from the same files under 5 ignore patterns x verbosity mixes; the highlighter alone over "
     "every Python file under /repo/src and a fixed list of stdlib modules at every 7th line. Non-trivial: a source "
     "with a multi-line token within 4 lines of the raise, markup-like text or no source at all; a message with markup "
     "or newlines; recursion depth >= 10. Distinct by hash."
@@ -275,6 +276,54 @@ def check_ignore(ctx, case):
         ctx.fail("ignore", "C20.ignore", case, {"outer/inner listed": list(want)}, {"listed": list(shown), "text": text})
 
 
+_SEQ = {}
+
+
+def check_ignore_sequence(ctx, case):
+    """Several renders in ONE process of exceptions from the SAME files under different ignore patterns: every render is
+    judged on its own pattern (nothing may be remembered from an earlier render)."""
+    from clikit.ui.components.exception_trace import ExceptionTrace
+
+    ctx.case("ignore-sequence", case, len(set(case["patterns"])) > 1)
+    if "mod" not in _SEQ:
+        src = "def outer(f, exc):\n    return inner(f, exc)\n\n\ndef inner(f, exc):\n    return f(exc)\n"
+        _SEQ["mod"], _SEQ["path"] = raisers.load_source("c20q", src)
+        _SEQ["boom"] = raisers.raiser("c20qb").boom
+    mod, path = _SEQ["mod"], _SEQ["path"]
+    for i, (pattern, verbosity) in enumerate(zip(case["patterns"], case["verbosities"])):
+        try:
+            mod.outer(_SEQ["boom"], ValueError("sequence %d" % i))
+        except ValueError as e:
+            caught = e
+        io = make_io({"verbosity": verbosity})
+        trace = ExceptionTrace(caught)
+        if pattern == "match":
+            trace.ignore_files_in("^" + re.escape(os.path.dirname(path)))
+        elif pattern == "match-file":
+            trace.ignore_files_in("^" + re.escape(path))
+        elif pattern == "nomatch":
+            trace.ignore_files_in("^/nonexistent/")
+        elif pattern == "nomatch2":
+            trace.ignore_files_in("^" + re.escape(os.path.dirname(path)) + "/other/")
+        try:
+            trace.render(io)
+        except Exception as e:
+            ctx.fail("ignore-sequence", "C20.renders", case, "render returns", {"step": i}, exc=e)
+            return
+        text = markup.strip_sgr(io.fetch_output() + io.fetch_error())
+        shown = ("in outer" in text, "in inner" in text)
+        if verbosity == 0:
+            want = (False, False)
+        elif pattern in ("match", "match-file") and verbosity < 4:
+            want = (False, False)
+        else:
+            want = (True, True)
+        if shown != want:
+            ctx.fail("ignore-sequence", "C20.ignore", case, {"step": i, "outer/inner listed": list(want)},
+                     {"listed": list(shown), "text": text}, sig="sequence")
+            return
+
+
 def check_highlighter(ctx, case, by_construction=False):
     from clikit.ui.components.exception_trace import Highlighter
 
@@ -308,7 +357,7 @@ def check_highlighter(ctx, case, by_construction=False):
         ctx.fail("highlighter", "C20.highlighter", case, "consecutive numbers around %d" % line, nums, sig="numbering")
 
 
-PARTS = {"trace": check_trace, "ignore": check_ignore, "highlighter": check_highlighter}
+PARTS = {"ignore-sequence": check_ignore_sequence, "trace": check_trace, "ignore": check_ignore, "highlighter": check_highlighter}
 
 
 def corpus():
@@ -364,5 +413,12 @@ def run(ctx):
         for pattern in ("none", "match", "nomatch"):
             for ansi in (False, True):
                 check_ignore(ctx, {"verbosity": v, "pattern": pattern, "ansi": ansi})
+    import itertools
+
+    pats = ["none", "match", "match-file", "nomatch", "nomatch2"]
+    for n in (2, 3):
+        for seq in itertools.product(pats, repeat=n):
+            for vs in ((1,) * n, (2, 1, 4)[:n], (4, 1, 1)[:n]):
+                check_ignore_sequence(ctx, {"patterns": list(seq), "verbosities": list(vs)})
     ctx.parallel("shard_highlighter", [(i, 16) for i in range(16)])
     raisers.cleanup()
